@@ -12,12 +12,12 @@ LEVEL_NOTE = ('decides (part): include/exclude are exact inverses on the same ce
 S = 'lightmotif::sampler::Sampler'
 
 
-def effects(f, R):
+def effects(f, R, CA=None):
     """Relational summary of the count updates of one function, independent of the loop form (index loops, enumerate, zipped iterators):
     every `x op= y` store is put in the canonical element form of lm/iteralg.py first."""
     from lm import iteralg
     out = []
-    CA = iteralg.Canon(f, R)
+    CA = CA if CA is not None else iteralg.Canon(f, R)
     for s in X.stores(f, R):
         tg0, v0 = norm(s['target']), norm(s['value'])
         if not (v0[0] == 'bin' and v0[1] in ('Add', 'Sub') and v0[2] == tg0):
@@ -147,6 +147,19 @@ def r162(db, ctx):
     R = X.Rec(f)
     ef = effects(f, R)
     probs = []
+    # `for (i, seq) in sequences.iter().enumerate().filter(|&(i, _)| active.test(i))`: the guard is a filter stage of the loop's iterator
+    from lm import reduce as RD
+    RC = RD.RCanon(db, f, R)
+    ef_f = None
+    if any((f.callee_short(t_) or '').endswith('Iterator::filter') for _, t_ in f.calls()):
+        try:
+            ef_f = effects(f, R, RC)
+        except Exception:
+            ef_f = None
+        if ef_f is not None and sorted(e_['kind'] for e_ in ef_f) == ['bg-all', 'bg-window', 'motif-window']:
+            ef = ef_f
+        else:
+            ef_f = None
     kinds = sorted(e['kind'] for e in ef)
     if kinds != ['bg-all', 'bg-window', 'motif-window']:
         probs.append(f'effects {kinds}')
@@ -169,12 +182,18 @@ def r162(db, ctx):
         # loop index i of enumerate(sequences)
         rels = G.relations(f, R, e['block'])
         g = [r for r in rels if r[0] == 'true' and r[1][0] == 'call' and r[1][1].endswith('BitVec::test')]
-        if not g:
+        from lm import iteralg
+        fz = None
+        if not g and ef_f is not None:
+            # the sequence read (or the counts row) is the element at position L of a loop whose iterator filtered on active.test(position)
+            for x_ in X.walk(e['seq'] if e['kind'] != 'bg-all' else e['counts']):
+                if iteralg.is_pos(x_) and any(fl_[0] == 'call' and fl_[1].endswith('BitVec::test') and len(fl_[2]) == 2 and fl_[2][1] == x_ for fl_ in RC.filters.get(x_[1], [])):
+                    fz = x_
+        if not g and fz is None:
             probs.append(f'{e["kind"]} not guarded by active.test(i)')
             continue
-        from lm import iteralg
-        CA = iteralg.Canon(f, R)
-        zi = CA.canon(g[0][1][2][1])
+        CA = RC if fz is not None else iteralg.Canon(f, R)
+        zi = fz if fz is not None else CA.canon(g[0][1][2][1])
         # the guard index is the position in the loop over data.sequences; the i-th sequence is the element at that position
         ext = CA.extents.get(zi[1], []) if iteralg.is_pos(zi) else []
         seqs = [c_[1] for c_ in ext if c_[0] == 'len']
